@@ -130,6 +130,44 @@ type Case struct {
 // Video reports whether the track is a video track.
 func (c *Case) Video() bool { return c.Codec != "mp4a" }
 
+// MaxEntries is an upper bound of the sub-sample entries a sample of the case needs when every VCL NAL unit
+// gets an entry of its own: one more for clear bytes behind the last VCL NAL unit and one per 65535 bytes of
+// sample data (a 16-bit clear counter that overflows is continued in a further entry).
+func (c *Case) MaxEntries() int {
+	m := 0
+	for i := range c.Samples {
+		n, size, trailing := 0, 0, false
+		for k := range c.Samples[i].Nals {
+			nal := &c.Samples[i].Nals[k]
+			size += 4 + nal.Len()
+			trailing = !nal.VCL
+			if nal.VCL {
+				n++
+			}
+		}
+		if trailing {
+			n++
+		}
+		n += size / 65535
+		if n > m {
+			m = n
+		}
+	}
+	return m
+}
+
+// SaizLimit reports that a sample of the case may need more sub-sample entries than the 8-bit
+// sample_info_size of saiz can describe (ISO/IEC 14496-12 8.7.8: unsigned int(8)); 6 bytes per entry behind
+// a 16-bit count and (cenc, as the library signals it) a 16-byte IV. For such a case a refusal by the
+// encryptor is a correct outcome; an output, if there is one, is judged as always.
+func (c *Case) SaizLimit() bool {
+	iv := 0
+	if c.Scheme == "cenc" {
+		iv = 16
+	}
+	return c.Video() && iv+2+6*c.MaxEntries() > 255
+}
+
 // NalHdrLen is the NAL unit header size of the codec.
 func (c *Case) NalHdrLen() int {
 	if c.Codec == "hvc1" || c.Codec == "hev1" {
